@@ -41,7 +41,7 @@ impl ScriptStack for Vec<Vec<u8>> {
 
     fn push_number(&mut self, val: i64) -> Result<(), InterpreterError> {
         // Range: [-2^31+1, 2^31-1]
-        if val > i32::MAX as i64 || val < i32::MIN as i64 {
+        if val > i32::MAX as i64 || val < -(i32::MAX as i64) {
             return Err(InterpreterError::NumberOutOfRange);
         }
         let (posval, negmask) = if val < 0 { (-val, 128) } else { (val, 0) };
